@@ -543,6 +543,8 @@ def _evaluate(case, o: Oracle, tab: L.Table, m: Mat, eff: int, tname: str) -> No
         return
     with o.spsdk("merge", "export"):
         data = bytes(bimg.image_info().export())
+        again = bytes(bimg.image_info().export())
+        o.check("merge", again == data, "export_not_repeatable", "%s: the second export of the same object differs (%s)" % (tname, _diff(data, again)))
     o.artifact("want_layout", {n: [placed.pos[n], placed.length[n]] for n in present})
     # (init) the initial offset the object reports
     with o.spsdk("init_offset", "property"):
